@@ -1,0 +1,208 @@
+// Copyright 2026 Juan Pablo Tosso and the OWASP Coraza contributors
+// SPDX-License-Identifier: Apache-2.0
+
+//go:build verif
+
+package corazawaf
+
+import (
+	"fmt"
+	"reflect"
+	"sort"
+	"strings"
+
+	"github.com/corazawaf/coraza/v3/types"
+)
+
+// VerifTarget is one compiled target (or exclusion) of a rule.
+type VerifTarget struct {
+	Variable   string
+	Count      bool
+	KeyStr     string
+	KeyRx      string
+	HasKeyRx   bool
+	Exceptions []VerifTarget `json:",omitempty"`
+}
+
+// VerifAction is one compiled action of a rule.
+type VerifAction struct {
+	Name string
+	Type int
+	// State is a deterministic dump of the action's private state.
+	State string
+}
+
+// VerifRule is the compiled form of a rule (verification tooling only).
+type VerifRule struct {
+	ID, ParentID     int
+	Phase            int
+	SecMark          string
+	Targets          []VerifTarget
+	HasOperator      bool
+	OperatorFunction string
+	OperatorData     string
+	Negation         bool
+	Transformations  []string
+	Actions          []VerifAction
+	Capture          bool
+	MultiMatch       bool
+	HasChain         bool
+	Log, Audit       bool
+	DisruptiveStatus int
+	Msg, LogData     string
+	HasMsg           bool
+	HasLogData       bool
+	Severity         int
+	Rev, Ver         string
+	Maturity         int
+	Accuracy         int
+	Tags             []string
+	Chain            *VerifRule `json:",omitempty"`
+}
+
+func verifTarget(v ruleVariableParams) VerifTarget {
+	t := VerifTarget{Variable: v.Variable.Name(), Count: v.Count, KeyStr: v.KeyStr}
+	if v.KeyRx != nil {
+		t.HasKeyRx = true
+		t.KeyRx = v.KeyRx.String()
+	}
+	for _, e := range v.Exceptions {
+		et := VerifTarget{Variable: v.Variable.Name(), KeyStr: e.KeyStr}
+		if e.KeyRx != nil {
+			et.HasKeyRx = true
+			et.KeyRx = e.KeyRx.String()
+		}
+		t.Exceptions = append(t.Exceptions, et)
+	}
+	return t
+}
+
+// VerifDump returns the compiled form of the rule.
+func (r *Rule) VerifDump() *VerifRule {
+	if r == nil {
+		return nil
+	}
+	d := &VerifRule{
+		ID: r.ID_, ParentID: r.ParentID_, Phase: int(r.Phase_), SecMark: r.SecMark_,
+		Capture: r.Capture, MultiMatch: r.MultiMatch, HasChain: r.HasChain, Log: r.Log, Audit: r.Audit,
+		DisruptiveStatus: r.DisruptiveStatus, Severity: r.Severity_.Int(), Rev: r.Rev_, Ver: r.Version_,
+		Maturity: r.Maturity_, Accuracy: r.Accuracy_, Tags: append([]string(nil), r.Tags_...),
+	}
+	if r.Severity_ == types.RuleSeverityUnset {
+		d.Severity = -1
+	}
+	if r.Msg != nil {
+		d.HasMsg, d.Msg = true, r.Msg.String()
+	}
+	if r.LogData != nil {
+		d.HasLogData, d.LogData = true, r.LogData.String()
+	}
+	for _, v := range r.variables {
+		d.Targets = append(d.Targets, verifTarget(v))
+	}
+	if r.operator != nil {
+		d.HasOperator = true
+		d.OperatorFunction = r.operator.Function
+		d.OperatorData = r.operator.Data
+		d.Negation = r.operator.Negation
+	}
+	transformationIDsLock.Lock()
+	names := transformationIDToName[r.transformationsID]
+	transformationIDsLock.Unlock()
+	if names != "" {
+		d.Transformations = strings.Split(strings.TrimPrefix(names, "+"), "+")
+	}
+	if len(d.Transformations) != len(r.transformations) {
+		d.Transformations = append(d.Transformations, fmt.Sprintf("<mismatch: %d functions>", len(r.transformations)))
+	}
+	for _, a := range r.actions {
+		d.Actions = append(d.Actions, VerifAction{Name: a.Name, Type: int(a.Function.Type()), State: verifDeepDump(reflect.ValueOf(a.Function), 0)})
+	}
+	d.Chain = r.Chain.VerifDump()
+	return d
+}
+
+// verifDeepDump prints a value including unexported fields, following
+// pointers and interfaces, without printing addresses.
+func verifDeepDump(v reflect.Value, depth int) string {
+	if depth > 8 {
+		return "…"
+	}
+	if !v.IsValid() {
+		return "<nil>"
+	}
+	switch v.Kind() {
+	case reflect.Ptr, reflect.Interface:
+		if v.IsNil() {
+			return "<nil>"
+		}
+		return verifDeepDump(v.Elem(), depth+1)
+	case reflect.Struct:
+		var sb strings.Builder
+		sb.WriteString(v.Type().Name() + "{")
+		for i := 0; i < v.NumField(); i++ {
+			if i > 0 {
+				sb.WriteString(" ")
+			}
+			sb.WriteString(v.Type().Field(i).Name + ":" + verifDeepDump(v.Field(i), depth+1))
+		}
+		sb.WriteString("}")
+		return sb.String()
+	case reflect.Slice, reflect.Array:
+		if v.Kind() == reflect.Slice && v.Type().Elem().Kind() == reflect.Uint8 {
+			return fmt.Sprintf("%q", v.Bytes())
+		}
+		var sb strings.Builder
+		sb.WriteString("[")
+		for i := 0; i < v.Len(); i++ {
+			if i > 0 {
+				sb.WriteString(" ")
+			}
+			sb.WriteString(verifDeepDump(v.Index(i), depth+1))
+		}
+		sb.WriteString("]")
+		return sb.String()
+	case reflect.Map:
+		keys := v.MapKeys()
+		parts := make([]string, 0, len(keys))
+		for _, k := range keys {
+			parts = append(parts, verifDeepDump(k, depth+1)+":"+verifDeepDump(v.MapIndex(k), depth+1))
+		}
+		sort.Strings(parts)
+		return "map[" + strings.Join(parts, " ") + "]"
+	case reflect.String:
+		return fmt.Sprintf("%q", v.String())
+	case reflect.Bool:
+		return fmt.Sprintf("%v", v.Bool())
+	case reflect.Int, reflect.Int8, reflect.Int16, reflect.Int32, reflect.Int64:
+		return fmt.Sprintf("%d", v.Int())
+	case reflect.Uint, reflect.Uint8, reflect.Uint16, reflect.Uint32, reflect.Uint64, reflect.Uintptr:
+		return fmt.Sprintf("%d", v.Uint())
+	case reflect.Float32, reflect.Float64:
+		return fmt.Sprintf("%g", v.Float())
+	case reflect.Func:
+		if v.IsNil() {
+			return "<nil func>"
+		}
+		return "<func>"
+	default:
+		return "<" + v.Kind().String() + ">"
+	}
+}
+
+// VerifDumpRules returns the compiled form of every rule of the WAF, in order.
+func (w *WAF) VerifDumpRules() []*VerifRule {
+	rules := w.Rules.GetRules()
+	out := make([]*VerifRule, 0, len(rules))
+	for i := range rules {
+		out = append(out, rules[i].VerifDump())
+	}
+	return out
+}
+
+// VerifMemoizerID returns the owner id this WAF uses in the process-wide pattern cache.
+func (w *WAF) VerifMemoizerID() uint64 { return w.memoizerID }
+
+// VerifSetCapturing sets the capture flag of a transaction so that operators
+// called directly store their captures.
+func (tx *Transaction) VerifSetCapturing(on bool) { tx.Capture = on }
